@@ -169,6 +169,15 @@ class CallMixin:
             if not is_sym(v):
                 return [(st, fractions.Fraction(v))]
             raise Unsupported(f"Fraction({v!r})", node)
+        if cls is slice and not kwargs and 1 <= len(args) <= 3:
+            a = list(args)
+            if len(a) == 1:
+                a = [None, a[0], None]
+            elif len(a) == 2:
+                a = [a[0], a[1], None]
+            if all(x is None or isinstance(x, int) for x in a):
+                return [(st, slice(*a))]
+            return [(st, SSlice(*a))]
         if cls in (int, str, bool, list, tuple, dict, set, type, object, frozenset, float, range):
             return self.call_builtin(st, cls, args, kwargs, node)
         if isinstance(cls, type) and issubclass(cls, enum.Enum):
@@ -331,6 +340,10 @@ class CallMixin:
         if f is bool:
             t = self.truth(st, args[0]) if args else False
             return [(st, t if isinstance(t, bool) else SBool(t))]
+        if f is str and args and isinstance(args[0], SReal):
+            # str(Decimal): a function of the value here (a Decimal also carries its exponent / trailing zeros: the
+            # contracts that use this say so among their assumptions)
+            return [(st, SStr(z3.Function("decimal_str", z3.RealSort(), z3.StringSort())(args[0].z)))]
         if f is str:
             v = args[0] if args else ""
             if isinstance(v, (str, SStr)):
@@ -554,6 +567,12 @@ class CallMixin:
                 return self.equal(st, self_, args[0], node)
             if name == "__hash__":
                 return [(st, SInt(z3.Function("id", z3.IntSort(), z3.IntSort())(self_.z)))]
+            if name == "WhichOneof" and isinstance(self_, SRef) and args and isinstance(args[0], str):
+                # protobuf oneof: which member is set is ghost state of the record (set by the scenario / by construction)
+                k = ("oneof", self_.z.get_id(), args[0])
+                if k in st.ghost:
+                    return [(st, st.ghost[k])]
+                raise Unsupported(f"WhichOneof({args[0]!r}) of a record whose variant is not known", node)
             raise Unsupported(f"object.{name}", node)
         if kind == "slice" and name == "indices":
             from .pysem import slice_indices
